@@ -13,12 +13,16 @@
        graph computations (orch_finishes_iff_all_ended);
      - the reported assignment is the last value_change of each computation
        (orch_reports_last_values);
-     - the reported (violation, cost) is the accounting of that assignment
-       (orch_cost_accounts_assignment) and is None exactly when a variable has no value
-       (orch_cost_none_iff_incomplete);
-     - composed (orch_dpop_result_optimal_partial): if the last values are an optimal total
-       assignment -- the conclusion of C01 for DPOP, a HYPOTHESIS here -- the reported result
-       is total, optimal and correctly accounted.
+     - the reported (violation, cost) is the accounting of that assignment when it is total
+       (orch_cost_accounts_assignment).
+   Stated but NOT proved yet (kept visible; checked on every run by the correspondence and
+   the oracle only):
+     orch_cost_none_iff_incomplete : forall c d tr, NoDup (var_names d) ->
+        (reported_cost d (run c tr) = None <->
+         exists v, In v (var_names d) /\ last_value v tr = None)
+     orch_dpop_result_optimal : if the last values are an optimal total assignment (the
+        conclusion of C01 for DPOP) then the reported assignment is total and optimal and
+        cost + infinity * violation is the optimum.
    Not expressible in the model (PARTIAL): OS threads, the timeout timer, agent start-up and
    the transport of the messages; these are exercised by the real thread-mode runs of
    harness/props/C22.py, whose management traces are replayed through M_Orch. *)
